@@ -41,7 +41,7 @@ TrPpt == atoi(IOEnv.PPT_MS)
 VARIABLES l,       \* next event
           cfg, sc, \* configuration and number of the scenario
           op,      \* the public call in progress
-          cause,   \* what the terminal did to the frame the client is waiting for: "" | "broken" | "silent" | "foreign" | "stale"
+          cause,   \* what the terminal did to the frame the client is waiting for: "" | "broken" | "silent" | "foreign" | "refused" | "stale"
           late     \* the delayed reply the terminal has scheduled: [pos, ms] (ms = 0: none)
 tvars == <<l, cfg, sc, op, cause, late>>
 allvars == <<vars, tvars>>
@@ -98,7 +98,10 @@ SerialOk(raw) == LET d == Codec!DecPacket("feig_CVendFunctionsEnhancedSystemInfo
                  d.ok /\ Lower(d.val.device_id) = Lower(cfg.serial)
 TTx == /\ Is("tx") /\ Step
        /\ late' = (IF "after_ms" \in DOMAIN Ev /\ Ev.conn = conn THEN [pos |-> Ev.pos, ms |-> Ev.after_ms] ELSE late)
-       /\ cause' = (IF Ev.conn = conn /\ phase = "sys" /\ Ev.pos = 1 /\ (Ev.kind # "Completion" \/ ~SerialOk(Ev.raw)) THEN "foreign" ELSE cause)
+       /\ cause' = (IF Ev.conn = conn /\ phase = "sys" /\ Ev.pos = 1 /\ (Ev.kind # "Completion" \/ ~SerialOk(Ev.raw)) THEN "foreign"
+                    \* the registration is answered by something else than a completion: an unexpected reply, error at once
+                    ELSE IF Ev.conn = conn /\ phase = "reg" /\ Ev.pos = 1 /\ Ev.kind # "Completion" THEN "refused"
+                    ELSE cause)
        /\ UNCHANGED vars /\ UNCHANGED <<cfg, sc, op>>
 TFault == /\ Is("fault") /\ Step /\ Ev.conn = conn
           /\ cause' = (IF Ev.kind \in {"silence", "partial"} THEN "silent" ELSE "broken")
@@ -109,7 +112,7 @@ TEnvOther == More /\ Ev.e \in {"plan", "ledger"} /\ Step /\ UNCHANGED vars /\ UN
 
 (* ---- the client consumed a frame ---- *)
 TGot == /\ Is("got") /\ Step /\ Ev.conn = conn
-        /\ IF ~Ev.planned \/ cause = "stale" \/ (cause = "foreign" /\ phase = "sys" /\ Ev.pos = 1)
+        /\ IF ~Ev.planned \/ cause = "stale" \/ (cause = "foreign" /\ phase = "sys" /\ Ev.pos = 1) \/ (cause = "refused" /\ phase = "reg" /\ Ev.pos = 1)
            THEN UNCHANGED vars /\ UNCHANGED late        \* a broken or stale frame, a foreign serial number: the failure follows with the close
            ELSE /\ Ev.t >= now /\ Ev.t - now = (IF late.pos = Ev.pos THEN late.ms ELSE 0) /\ conn \notin dirty
                 /\ late' = (IF late.pos = Ev.pos THEN NoLate ELSE late)
@@ -124,7 +127,7 @@ TClose == /\ Is("close") /\ Step
           /\ IF Ev.conn # conn \/ ~active
              THEN (Ev.conn \in closed \/ ~active) /\ UNCHANGED vars
              ELSE /\ Ev.t >= now
-                  /\ CASE cause = "broken" -> Ev.t = now /\ FrameBroken
+                  /\ CASE cause \in {"broken", "refused"} -> Ev.t = now /\ FrameBroken
                        [] cause = "stale" -> Ev.t = now /\ StaleFailure
                        [] cause = "foreign" -> Ev.t - now = (IF late.pos = pos THEN late.ms ELSE 0) /\ ForeignSerial(Ev.t - now)
                        [] cause = "silent" -> Ev.t = Deadline /\ FrameSilent
